@@ -201,7 +201,8 @@ class COOData:
 
         """
         y = self.data * x[self.indices[1]]
-        z = np.zeros_like(x)
+        # the product of, e.g., float data and an integer vector is float
+        z = np.zeros(x.shape, dtype=y.dtype)
         np.add.at(z, self.indices[0], y)
         if D is not None:
             z[D] = x[D]
